@@ -43,13 +43,71 @@ def make_block(name, targets, payload, idx):
     raise ValueError(payload)
 
 
+_FRONT_CACHE: dict = {}
+
+
 def build_scfg(desc, payload="basic"):
+    """S1 descriptions (names/succ) or front-end derived graphs:
+    {"kind": "source", "src": ...} -> AST2SCFG, {"kind": "bytecode", "src": ...} -> ByteFlow."""
+    kind = desc.get("kind")
+    if kind == "source":
+        from numba_scfg.core.datastructures.ast_transforms import AST2SCFG
+
+        return AST2SCFG(desc["src"])
+    if kind == "bytecode":
+        from numba_scfg.core.datastructures.byte_flow import ByteFlow
+
+        ns = {}
+        exec(compile(desc["src"], "<front>", "exec"), ns)
+        return ByteFlow.from_bytecode(ns["f"]).scfg
     names = desc["names"]
     return SCFG({n: make_block(n, s, payload, i) for i, (n, s) in enumerate(zip(names, desc["succ"]))})
 
 
 def orig_map(desc):
+    if desc.get("kind") in ("source", "bytecode"):
+        key = (desc["kind"], desc["src"])
+        if key not in _FRONT_CACHE:
+            if len(_FRONT_CACHE) > 256:
+                _FRONT_CACHE.clear()
+            g = build_scfg(desc)
+            _FRONT_CACHE[key] = {n: tuple(b._jump_targets) for n, b in g.graph.items()}
+        return _FRONT_CACHE[key]
     return {n: tuple(s) for n, s in zip(desc["names"], desc["succ"])}
+
+
+def is_closed(orig):
+    """the closed-CFG predicate of DESIGN section 9 on a concrete graph"""
+    preds = {n: set() for n in orig}
+    for n, s in orig.items():
+        if len(s) > 2 or len(set(s)) != len(s):
+            return False
+        for t in s:
+            if t not in orig:
+                return False
+            preds[t].add(n)
+    heads = [n for n in orig if not preds[n]]
+    if len(heads) != 1:
+        return False
+    seen = {heads[0]}
+    st = [heads[0]]
+    while st:
+        x = st.pop()
+        for y in orig[x]:
+            if y not in seen:
+                seen.add(y)
+                st.append(y)
+    if len(seen) != len(orig):
+        return False
+    ok = {n for n, s in orig.items() if not s}
+    ch = True
+    while ch:
+        ch = False
+        for n, s in orig.items():
+            if n not in ok and any(t in ok for t in s):
+                ok.add(n)
+                ch = True
+    return len(ok) == len(orig)
 
 
 def apply_stages(g, k):
